@@ -142,3 +142,20 @@ def tones_cplx(N):
             out.append(('ctone%g+%g' % (f, eps), np.exp(2j * np.pi * f * n + 0.3j) + eps * eta(N, True)))
     out.append(('c2tones', np.exp(2j * np.pi * 0.1 * n) + 0.5j * np.exp(-2j * np.pi * 0.31 * n) + 0.05 * eta(N, True)))
     return out
+
+
+def pcm(N):
+    """Fixed narrow-integer records as produced by WAV readers: int16 near full scale and uint8.  Products of two samples
+    overflow the sample dtype, so any estimator that forgets to promote computes garbage."""
+    n = np.arange(N, dtype=float)
+    out = [('pcm16_tone', np.round(20000 * np.cos(2 * np.pi * 0.2 * n + 0.3) + 6000 * weyl(N, 4)).astype(np.int16)),
+           ('pcm16_noise', np.round(60000 * weyl(N, 5)).astype(np.int16)),
+           ('pcm16_fullscale', np.where(n % 2 == 0, 32767, -32768).astype(np.int16) // np.where(n % 3 == 0, 2, 1).astype(np.int16)),
+           ('pcm8', np.round(128 + 100 * np.cos(2 * np.pi * 0.13 * n) + 40 * weyl(N, 6)).astype(np.uint8))]
+    return out
+
+
+def prom(a):
+    """The mathematical value of integer samples (no wrap-around): promote integer arrays to float64."""
+    a = np.asarray(a)
+    return a.astype(float) if a.dtype.kind in 'iub' else a
